@@ -6,7 +6,10 @@ from .mir import Unmodelled
 from .core import (I, Agg, Ref, Opaque, FnItem, UNINIT, UNIT, NONE, mk_enum, some, ok, err, payload, is_sym, simp, z, b_not, b_and, b_or,
                    binop, InternalError, State, Thread, Machine)
 from .models import Env, callee_info
+from .core import type_head
 from .managed import World
+from . import explore
+from .models import MAX_PERMITS as MAXP
 
 SCALARS = ['password', 'options', 'application_name', 'ssl_mode', 'connect_timeout', 'keepalives', 'keepalives_idle',
            'target_session_attrs', 'channel_binding', 'load_balance_hosts']
@@ -191,6 +194,7 @@ class PgConfigWorld(World):
                       ('PgChannelBinding', ['Disable', 'Prefer', 'Require']), ('PgLoadBalanceHosts', ['Disable', 'Random'])):
             s.M.enums[n] = vs
         s.fields = prog.structs[('postgres/src/config.rs', 'Config')]
+        s.M.enums.setdefault('Runtime', ['Tokio1'])
 
     def mk_config(s, st, pattern, sym):
         """pattern: dict field -> spec (None = unset; 'set' = Some(symbolic); ('list', n); ('enum', variant)) -> Config aggregate"""
@@ -408,7 +412,84 @@ def cases(tier, fields):
 def _un(u): return 'none' if u is None else ('invalid' if u == 'err' else '+'.join(sorted(k for k, v in u.items() if v)) or 'empty')
 
 
+def run_c18_pool(prog, job):
+    """the last sentence of C18: the pool and manager sections reach the built pool unchanged, and create_pool() reports timeouts
+    configured without a runtime as a build error.  Config::create_pool / builder are executed from MIR down into deadpool core's
+    PoolBuilder::build with symbolic max_size and durations; the pg part of the manager must equal what get_pg_config() returns."""
+    W = PgConfigWorld(prog); M = W.M
+    nobl = 0; ndis = 0; npaths = 0; vios = []
+    PI = prog.structs[('src/managed/mod.rs', 'PoolInner')]; MG = prog.structs[('postgres/src/lib.rs', 'Manager')]
+    fn_cp = W.find('::create_pool', 'postgres/src/config.rs'); fn_pg = W.find('::get_pg_config', 'postgres/src/config.rs')
+    fn_pcd = [n for n in M.fns if n.endswith('::default') and 'src/managed/config.rs' in n and type_head(M.fns[n].ret) in ('PoolConfig', 'Self')]
+    def dur(n): return Agg('Duration', [z3.BitVec(n, 64), I(0, 32)])
+    def canon(v): return explore.canon_value(v, explore.Canon(State(), set()))
+    def oblige(txt, st, cond, case):
+        nonlocal nobl, ndis
+        nobl += 1
+        holds = cond if isinstance(cond, bool) else M.must(st, cond)
+        if holds: ndis += 1; return
+        vios.append({'property': 'C18', 'what': f'create_pool: {txt} - violated ({case})', 'kind': 'pgmanager', 'crates': job['crates'], 'model': {}, 'trace': [['case', case]]})
+    TMO = {'none': (None, None, None), 'wait': ('w', None, None), 'create': (None, 'c', None), 'recycle': (None, None, 'r'), 'all': ('w', 'c', 'r')}
+    for pool_kind in ('absent',) + tuple(TMO):
+        for mgr_kind in ('absent', 'Fast', 'Verified', 'Clean'):
+            for rt_on in (False, True):
+                for qm in (('Fifo', 'Lifo') if pool_kind != 'absent' else ('-',)):
+                    case = f'pool={pool_kind} queue={qm} manager={mgr_kind} runtime={"set" if rt_on else "none"}'
+                    st = State(); sym = {}
+                    pat = {'dbname': 'set'}
+                    ms = z3.BitVec('pool_max_size', 64)
+                    if pool_kind != 'absent':
+                        st.assume(z3.ULE(ms, MAXP))
+                        tm = Agg('Timeouts', [NONE if x is None else some(dur('t_' + x)) for x in TMO[pool_kind]])
+                        pc = Agg('PoolConfig', [ms, tm, mk_enum('QueueMode', qm)]); pat['pool'] = ('val', pc)
+                    if mgr_kind != 'absent':
+                        mc = Agg('ManagerConfig', [mk_enum('RecyclingMethod', mgr_kind)]); pat['manager'] = ('val', mc)
+                    cfg = W.mk_config(st, pat, sym)
+                    st.assume(z3.Length(sym['dbname']) > 0)
+                    st.gset('url_records', [None])
+                    root = st.alloc(cfg)
+                    rt = some(mk_enum('Runtime', 'Tokio1')) if rt_on else NONE
+                    # the reference pg configuration: get_pg_config() on the same Config
+                    refs = [(x.gget('env_user', 'unasked'), r) for x, r in W.call(st.clone(), 'A', fn_pg, [Ref(root)])]
+                    for st1, r in W.call(st.clone(), 'A', fn_cp, [Ref(root), rt, Agg('NoTls', [])]):
+                        npaths += 1
+                        if r[0] != 'ok': oblige('create_pool never panics', st1, False, case); continue
+                        res = r[1]
+                        want_err = (not rt_on) and pool_kind not in ('absent', 'none')
+                        if res.variant == 'Err':
+                            e = payload(res)
+                            oblige('an error is reported only for timeouts configured without a runtime, as CreatePoolError::Build(NoRuntimeSpecified)', st1,
+                                   want_err and e.variant == 'Build' and payload(e).variant == 'NoRuntimeSpecified', case)
+                            continue
+                        oblige('timeouts configured without a runtime are a build error, not a pool', st1, not want_err, case)
+                        pool = payload(res); inner = M.deref(st1, M.deref(st1, pool.f[0].f[0]) if False else pool.f[0].f[0])
+                        pin = inner.f[0] if inner.ty == 'ArcInner' else inner
+                        got_pc = pin.f[PI.index('config')]; got_rt = pin.f[PI.index('runtime')]; mgr = pin.f[PI.index('manager')]
+                        oblige('the runtime reaches the pool', st1, canon(got_rt) == canon(rt), case)
+                        if pool_kind != 'absent':
+                            oblige('the pool section reaches the built pool unchanged (max_size, timeouts, queue mode)', st1, canon(got_pc) == canon(pc), case)
+                        else:
+                            dflt = [x[1] for _, x in W.call(st.clone(), 'A', fn_pcd[0], [])] if len(fn_pcd) == 1 else []
+                            oblige('without a pool section the pool is built with PoolConfig::default()', st1,
+                                   len(dflt) == 1 and canon(got_pc.f[1]) == canon(dflt[0].f[1]) and canon(got_pc.f[2]) == canon(dflt[0].f[2]), case)
+                        got_mc = mgr.f[MG.index('config')]
+                        exp_mc = Agg('ManagerConfig', [mk_enum('RecyclingMethod', mgr_kind if mgr_kind != 'absent' else 'Fast')])
+                        oblige('the manager section reaches the manager unchanged (default: RecyclingMethod::Fast)', st1, canon(got_mc) == canon(exp_mc), case)
+                        eu = st1.gget('env_user', 'unasked')
+                        ok_refs = [x[1] for (u, x) in refs if x[0] == 'ok' and x[1].variant == 'Ok' and repr(u) == repr(eu)]      # same answer of the environment for $USER
+                        oblige('the manager connects with exactly the configuration get_pg_config() returns', st1,
+                               len(ok_refs) == 1 and canon(mgr.f[MG.index('pg_config')]) == canon(payload(ok_refs[0])), case)
+    S = M.stats
+    return {'states': npaths, 'transitions': npaths, 'obligations': nobl, 'discharged': ndis, 'violations': vios, 'samples': [], 'complete': True,
+            'queries': S.queries, 'sat': S.sat, 'unsat': S.unsat, 'solver_s': round(S.solver_s, 3), 'cache_hits': S.cache_hits, 'blocks': S.blocks,
+            'functions': dict(S.fns), 'models': dict(S.models), 'dump_s': prog.dump_s,
+            'bounds': {'pool_section': 'absent / no timeouts / wait / create / recycle / all three (durations symbolic), fifo + lifo, max_size symbolic', 'manager_section': 'absent / Fast / Verified / Clean',
+                       'runtime': 'none / tokio'},
+            'summary': f'{npaths} paths, {ndis}/{nobl} obligations discharged, {len(vios)} violated'}
+
+
 def run_c18(prog, job):
+    if job['cfg'].get('part') == 'create_pool': return run_c18_pool(prog, job)
     import time
     W = PgConfigWorld(prog); M = W.M
     tier = job['tier']; shard, nshards = job['cfg'].get('shard', (0, 1))
